@@ -562,6 +562,9 @@ func genColumns(c *chooser, v primitive.ProtocolVersion, shape int, n int) []*me
 		if c.val(6) == 0 {
 			col.Name = c.str()
 		}
+		if c.val(3) == 0 {
+			col.Index = int32(i + c.val(3)) // the wire does not carry it
+		}
 		if shape == 2 {
 			// no global table spec as soon as n >= 2; the columns differ in the table, in the keyspace only, in the
 			// table only, or only the last column differs (each of these is a distinct way to get haveSameTable wrong)
